@@ -14,23 +14,32 @@ import (
 
 // CircuitOpts bounds the generated circuits.
 type CircuitOpts struct {
-	Parties  int  // number of input arguments (default 2)
-	MaxIn    int  // max bits per input (default 24)
-	MaxOuts  int  // max declared outputs (default 4)
-	MaxOutW  int  // max width of one output (default 17)
-	MaxGates int  // extra gates beyond the outputs (default 400)
-	WideLast int  // if > 0: one case in five gives the last party 513..WideLast input bits (several OT-extension chunks)
-	WideAny  int  // if > 0: one case in six gives every party 400..WideAny input bits (more than a thousand input wires in all)
-	GMW      bool // only XOR/XNOR/AND/INV
+	Parties    int  // number of input arguments (default 2)
+	MaxIn      int  // max bits per input (default 24)
+	MaxOuts    int  // max declared outputs (default 4)
+	MaxOutW    int  // max width of one output (default 17)
+	MaxGates   int  // extra gates beyond the outputs (default 400)
+	WideLast   int  // if > 0: one case in five gives the last party 513..WideLast input bits (several OT-extension chunks)
+	SignedArgs bool // a third of the arguments are intN; Inputs gives them negative numbers (as *big.Int) half of the time when the sign bit is set
+	WideAny    int  // if > 0: one case in six gives every party 400..WideAny input bits (more than a thousand input wires in all)
+	GMW        bool // only XOR/XNOR/AND/INV
 	// ZeroWidth: one case in ten gives one party (not all) a 0-bit argument
 	// ([0]byte, or an unsized argument instantiated with nothing).
 	ZeroWidth bool
 	FixedOuts int // if > 0: exactly this many declared outputs
-	ANDHeavy bool
+	ANDHeavy  bool
 }
 
 func uintType(bits int) types.Info {
 	t, err := types.Parse(fmt.Sprintf("uint%d", bits))
+	if err != nil {
+		panic(err)
+	}
+	return t
+}
+
+func intType(bits int) types.Info {
+	t, err := types.Parse(fmt.Sprintf("int%d", bits))
 	if err != nil {
 		panic(err)
 	}
@@ -82,7 +91,11 @@ func Circuit(t *rt.Tape, o CircuitOpts) *circuit.Circuit {
 		if o.WideLast > 513 && p == o.Parties-1 && t.Choose(rt.SGen, 5) == 0 {
 			bits = 513 + t.Choose(rt.SGen, o.WideLast-513)
 		}
-		c.Inputs = append(c.Inputs, circuit.IOArg{Name: fmt.Sprintf("in%d", p), Type: uintType(bits)})
+		ty := uintType(bits)
+		if o.SignedArgs && t.Choose(rt.SGen, 3) == 0 {
+			ty = intType(bits) // a signed argument: its callers pass negative numbers
+		}
+		c.Inputs = append(c.Inputs, circuit.IOArg{Name: fmt.Sprintf("in%d", p), Type: ty})
 		nin += bits
 	}
 	nouts := 1 + t.Choose(rt.SGen, o.MaxOuts)
@@ -112,10 +125,11 @@ func Circuit(t *rt.Tape, o CircuitOpts) *circuit.Circuit {
 	if o.GMW {
 		ops = []circuit.Operation{circuit.XOR, circuit.XNOR, circuit.AND, circuit.INV}
 	}
-	shape := t.Choose(rt.SGen, 8)
+	shape := t.Choose(rt.SGen, 11)
 	if o.ANDHeavy {
 		shape = 5
 	}
+	hub := circuit.Wire(t.Choose(rt.SGen, max(1, nin))) // shape 9: one wire feeds (almost) every gate
 	c.Gates = make([]circuit.Gate, ngates)
 	for i := 0; i < ngates; i++ {
 		avail := nin + i
@@ -125,6 +139,14 @@ func Circuit(t *rt.Tape, o CircuitOpts) *circuit.Circuit {
 				return circuit.Wire(avail - 1 - t.Choose(rt.SGen, min(avail, 3)))
 			case 2: // fan-out of few wires
 				return circuit.Wire(t.Choose(rt.SGen, min(avail, 3)))
+			case 8: // a strict chain: every gate reads the previous gate's output (depth = number of gates)
+				return circuit.Wire(avail - 1)
+			case 9: // one wire with a fan-out of (almost) all gates
+				if t.Choose(rt.SGen, 8) != 0 {
+					return hub
+				}
+			case 10: // wide and shallow: gates read input wires only
+				return circuit.Wire(t.Choose(rt.SGen, max(1, min(avail, nin))))
 			}
 			return circuit.Wire(t.Choose(rt.SGen, avail))
 		}
@@ -156,8 +178,10 @@ func Circuit(t *rt.Tape, o CircuitOpts) *circuit.Circuit {
 		g := circuit.Gate{Op: op, Output: circuit.Wire(nin + i)}
 		g.Input0 = pick()
 		if op != circuit.INV {
-			if t.Choose(rt.SGen, 8) == 0 {
+			if t.Choose(rt.SGen, 8) == 0 && shape != 8 {
 				g.Input1 = g.Input0 // the same wire as both inputs
+			} else if shape == 8 {
+				g.Input1 = circuit.Wire(t.Choose(rt.SGen, avail)) // the chain's other operand: anything
 			} else {
 				g.Input1 = pick()
 			}
@@ -173,28 +197,76 @@ func Circuit(t *rt.Tape, o CircuitOpts) *circuit.Circuit {
 // Inputs draws one input value per circuit argument.
 func Inputs(t *rt.Tape, c *circuit.Circuit) []*big.Int {
 	var out []*big.Int
+	var prev *big.Int
 	for _, in := range c.Inputs {
 		bits := int(in.Type.Bits)
-		v := new(big.Int)
-		switch t.Choose(rt.SGen, 5) {
-		case 0: // zero
-		case 1: // all ones
-			v.Sub(new(big.Int).Lsh(big.NewInt(1), uint(bits)), big.NewInt(1))
-		case 2: // single bit
-			v.SetBit(v, t.Choose(rt.SGen, bits), 1)
-		default:
-			for b := 0; b < bits; b += 16 {
-				x := t.Choose(rt.SGen, 1<<16)
-				for j := 0; j < 16 && b+j < bits; j++ {
-					if x>>j&1 == 1 {
-						v.SetBit(v, b+j, 1)
-					}
-				}
-			}
+		v := Value(t, bits, prev)
+		prev = v
+		if in.Type.Type == types.TInt && bits > 0 && v.Bit(bits-1) == 1 && t.Choose(rt.SGen, 2) == 0 {
+			// the same bits as a negative number: what IOArg.Parse makes of "-3" (big.Int.Bit gives
+			// the two's complement bits, so every reference computation is unchanged)
+			v = new(big.Int).Sub(v, new(big.Int).Lsh(big.NewInt(1), uint(bits)))
 		}
 		out = append(out, v)
 	}
 	return out
+}
+
+// Value draws an input value of the given width the way real data looks, not only the way a
+// random generator makes it: zero, all ones, one bit, a run of low or high ones (a carry that
+// ripples), all ones but one bit, alternating patterns, the same value as another party's (prev)
+// or its complement, small numbers, and uniformly random bits.
+func Value(t *rt.Tape, bits int, prev *big.Int) *big.Int {
+	v := new(big.Int)
+	if bits <= 0 {
+		return v
+	}
+	ones := func(n int) *big.Int { return new(big.Int).Sub(new(big.Int).Lsh(big.NewInt(1), uint(n)), big.NewInt(1)) }
+	mask := ones(bits)
+	switch t.Choose(rt.SGen, 14) {
+	case 0: // zero
+	case 1: // all ones
+		v.Set(mask)
+	case 2: // single bit
+		v.SetBit(v, t.Choose(rt.SGen, bits), 1)
+	case 3: // a run of low ones: 2^k - 1
+		v.Set(ones(1 + t.Choose(rt.SGen, bits)))
+	case 4: // a run of high ones
+		v.Xor(mask, ones(t.Choose(rt.SGen, bits)))
+	case 5: // all ones but one bit
+		v.Set(mask)
+		v.SetBit(v, t.Choose(rt.SGen, bits), 0)
+	case 6: // 0101...
+		for b := 0; b < bits; b += 2 {
+			v.SetBit(v, b, 1)
+		}
+	case 7: // 1010...
+		for b := 1; b < bits; b += 2 {
+			v.SetBit(v, b, 1)
+		}
+	case 8: // the other party's value, or its complement
+		if prev != nil {
+			v.And(prev, mask)
+			if t.Choose(rt.SGen, 2) == 0 {
+				v.Xor(v, mask)
+			}
+			break
+		}
+		fallthrough
+	case 9: // a small number
+		v.SetInt64(int64(t.Choose(rt.SGen, 300)))
+		v.And(v, mask)
+	default:
+		for b := 0; b < bits; b += 16 {
+			x := t.Choose(rt.SGen, 1<<16)
+			for j := 0; j < 16 && b+j < bits; j++ {
+				if x>>j&1 == 1 {
+					v.SetBit(v, b+j, 1)
+				}
+			}
+		}
+	}
+	return v
 }
 
 // Eval is the harness's own gate-by-gate truth-table evaluator: it returns
